@@ -1,12 +1,12 @@
-\* documented counterexample: core/conf describing a map[string]Struct by its element field table (seeded defect class)
+\* documented counterexample: a float32 field range-checked after rounding to float32 (seeded defect class): 0.1 passes (0.1:1], 0.7 passes [0:0.7), 0.1 fails [0:0.1]
 SPECIFICATION ISpec
 CONSTANTS
-  Sources = {"conf"}
-  Wraps = {"map"}
-  Kinds = {"int"}
-  AOpts = {"none", "plain"}
-  Defs = {"none", "in"}
-  Rngs = {"none"}
+  Sources = {"json", "form"}
+  Wraps = {"flat"}
+  Kinds = {"float32"}
+  AOpts = {"plain"}
+  Defs = {"none"}
+  Rngs = {"d1", "d7", "d1c", "d7c"}
   Opts = {"none"}
   FSs = {FALSE}
   Ptrs = {FALSE}
@@ -14,9 +14,9 @@ CONSTANTS
   XKs = {""}
   Rich = FALSE
   Edges = FALSE
-  KSps = {"lower", "cap"}
-  MKs = {"k", "a", "A", "M"}
-  Unit = 2
+  KSps = {"lower"}
+  MKs = {"k"}
+  Unit = 20
   Multi = FALSE
   XVs = {"one"}
   Depth = 1
@@ -24,8 +24,8 @@ CONSTANTS
   DropOnRebuild = FALSE
   CanonBang = FALSE
   WideParse = FALSE
-  MapAsStruct = TRUE
-  RoundFirst = FALSE
+  MapAsStruct = FALSE
+  RoundFirst = TRUE
   IndexFirst = FALSE
 INVARIANTS InvNoPanic InvCompleteness InvSoundness InvValues InvHistoryIndependent InvClassesDisjoint
 VIEW GView
